@@ -93,7 +93,7 @@ def tlc(workdir, module, cfgtext, args=(), timeout=600, env=None, heap=None, nam
     with open(cfg, "w") as f:
         f.write(cfgtext)
     meta = tempfile.mkdtemp(prefix="meta-", dir=workdir)
-    cmd = ["java", "-XX:+UseParallelGC", "-Xss64m"]
+    cmd = ["java", "-XX:+UseParallelGC", "-Xss64m", "-Djava.io.tmpdir=" + meta]   # (TLC leaves tlc-* directories in java.io.tmpdir)
     if heap:
         cmd.append("-Xmx" + heap)
     cmd += ["-cp", JAVA_CP, "tlc2.TLC", "-deadlock", "-metadir", meta, "-config", cfg] + list(args) + [module + ".tla"]
